@@ -68,7 +68,7 @@ def step (s : St) (toks : List String) : IO (St × Bool) := do
         let m := match r with
           | some _ => "acquired"
           | none => "blocks"
-        IO.println (withSpec m "blocks")
+        IO.println (withSpec m (if s.specHeld then "blocks" else "acquired"))
         -- afterwards: main unlocks, second thread locks and unlocks
         let w1 := ((unlockAlone p s.word).map (·.1)).getD s.word
         let w2 := ((lockAlone p 4 w1).map (·.1)).getD w1
@@ -95,26 +95,26 @@ def step (s : St) (toks : List String) : IO (St × Bool) := do
         let mline := match call m.lock 1 s.owner with
           | some _ => "acquired"
           | none => "blocks"
-        IO.println (withSpec mline "blocks")
+        IO.println (withSpec mline (if s.specHeld then "blocks" else "acquired"))
         return ({ s with owner := none, specHeld := false }, false)
       | _ => IO.println "bad-op"; return (s, false)
     | none, none => IO.println "bad-op"; return (s, false)
   | [op, c] =>
     match s.variant == "posix-script", c.toInt? with
     | true, some code =>
-      let one (f : MutexFn) : IO (St × Bool) := do
+      let one (f : MutexFn) (nat : String) : IO (St × Bool) := do
         if s.isNull then IO.println "0 -"; return (s, false)
         else
-          IO.println (withSpec (b01 (f.ret code) ++ " " ++ f.native) (b01 (code == 0) ++ " " ++ f.native))
+          IO.println (withSpec (b01 (f.ret code) ++ " " ++ f.native) (b01 (code == 0) ++ " " ++ nat))
           return (s, false)
       match op with
       | "new" =>
         let ok := mutexNewOk code
         IO.println ((if ok then "ok" else "null") ++ " pthread_mutex_init")
         return ({ s with isNull := !ok }, false)
-      | "lock" => one mutexPosix.lock
-      | "try" => one mutexPosix.trylock
-      | "unlock" => one mutexPosix.unlock
+      | "lock" => one mutexPosix.lock "pthread_mutex_lock"
+      | "try" => one mutexPosix.trylock "pthread_mutex_trylock"
+      | "unlock" => one mutexPosix.unlock "pthread_mutex_unlock"
       | "free" =>
         IO.println (if s.isNull then "- -" else "- pthread_mutex_destroy")
         return ({ s with isNull := true }, false)
